@@ -68,6 +68,11 @@ def run(chk, orch):
         hist = {}
         for k in range(nh):
             spec = dict(TINY, seed=chk.rng.randrange(1 << 20))
+            if k % 4 == 2:
+                # some genes come without gene/transcript records: a conversion with and one without --complete_genedb differ,
+                # the cache must keep them apart
+                spec["gtf_meta"] = 2
+                spec["genes_per_chr"] = 3
             two = k % 3 == 1
             steps = gen_history(chk.rng, two=two)
             a = {"workloads": [{"spec": spec}], "steps": steps}
@@ -93,6 +98,9 @@ def run(chk, orch):
                 ([{"spec": T}], [R(0, "A", complete_genedb=True), R(0, "B"), R(0, "A", complete_genedb=True)]),
                 ([{"spec": T}], [R(0, "A"), {"op": "restore_old_gtf", "wl": 0}, R(0, "A"), R(0, "B")]),
                 ([{"spec": T}], [R(0, "A", gtf_repr="gz"), {"op": "edit_gtf", "wl": 0}, R(0, "A", gtf_repr="gz"), R(0, "B")]),
+                # an annotation with partly missing gene/transcript records, converted with and without --complete_genedb
+                ([{"spec": dict(T, gtf_meta=2, genes_per_chr=3)}], [R(0, "A", complete_genedb=True), R(0, "B"), R(0, "A", complete_genedb=True), R(0, "C")]),
+                ([{"spec": dict(T, gtf_meta=2, genes_per_chr=3)}], [R(0, "A"), R(0, "B", complete_genedb=True), R(0, "A")]),
                 # the annotation is replaced WHILE a run converts it (at the 3rd / 9th commit of the conversion): later runs
                 # must not be handed the conversion of the old content (the run that overlapped the edit is not judged)
                 ([{"spec": T}], [dict(R(0, "A"), during={"op": "edit_gtf", "wl": 0, "nth_commit": 3}), R(0, "B"), R(0, "A")]),
@@ -126,7 +134,7 @@ def run(chk, orch):
             spec = workload.random_spec(chk.rng)
             opts = common.random_opts(chk.rng, spec)
             opts["annotated"] = True
-            spec["gtf_meta"] = 1
+            spec["gtf_meta"] = 2 if k % 2 == 1 else 1      # odd workloads: some genes without gene/transcript records
             # all representations of one workload run under the same hash seed (attribution rule: a difference that
             # is due to the hash seed alone is a C06 matter); threads/schedule/memory mode still vary
             hs = 0 if quick else chk.rng.choice([0, 1, 2, 3])
@@ -257,11 +265,13 @@ def run(chk, orch):
         # judge R
         for (k, repr_, comp), (spec, o, cell) in rep.items():
             r = res.get(("r", k, repr_, comp))
-            g = res.get(("r", k, "gtf", False))
+            # with records missing, --complete_genedb legitimately changes the result: compare within one setting of the flag
+            gcomp = comp if spec.get("gtf_meta") == 2 else False
+            g = res.get(("r", k, "gtf", gcomp))
             if r is None or g is None:
                 continue
             chk.count_run(r)
-            if (repr_, comp) == ("gtf", False):
+            if (repr_, comp) == ("gtf", gcomp):
                 continue
             chk.evaluations += 1
             chk.distinct.add("R" + json.dumps([k, rounds, repr_, comp]))
@@ -273,7 +283,7 @@ def run(chk, orch):
             if r["exit"] != 0:
                 bad = ["<exit %s %s>" % (r["exit"], r.get("failure_site"))]
             if bad:
-                gspec, go, gcell = rep[(k, "gtf", False)]
+                gspec, go, gcell = rep[(k, "gtf", gcomp)]
                 chk.violation("R:equal", {"repr": repr_, "complete": comp, "files": ",".join(sorted(set(common.file_class(b) for b in bad)))[:200]},
                               "annotation as %s%s gives different outputs than as .gtf: %s" % (repr_, " + --complete_genedb" if comp else "", bad[:6]),
                               {"engine": "pipeline", "oracle": "golden_equality",
